@@ -131,6 +131,12 @@ class ToList(Harness):
 
     def prefer(self, ctx):
         prefs = []
+        # steer towards lengths and times so that the case can be rebuilt from database units
+        for ent in [ctx['entT']] + ctx['ents']:
+            if all(is_z3(p) for p, e in ent.values()) and set(ent) == {'m', 's'}:
+                pm, em = ent['m']
+                ps, es = ent['s']
+                prefs.append(z3.And(z3.Xor(pm, ps), z3.Implies(pm, em == 1), z3.Implies(ps, es == 1)))
         for ent in [ctx['entT']] + ctx['ents']:
             for k, (p, e) in ent.items():
                 if is_z3(e):
@@ -149,6 +155,19 @@ class ToList(Harness):
         if self.consts:
             return [{'mode': 'query', 'text': '%s s' % frac_text(v)}]
         reqs = []
+        # query-level: when every unit in the model is a plain length or time, rebuild the list from database units
+        pool = {'m': ['meter', 'centimeter', 'foot', 'inch'], 's': ['hour', 'minute', 'second', 'millisecond']}
+        dims = [conc_dim(inputs, 'dt', self.U)] + [conc_dim(inputs, 'd%d' % i, self.U) for i in range(self.n)]
+        if label != 'validate' and all(len(d) == 1 and list(d.values()) == [1] for d in dims):
+            used = {'m': 0, 's': 0}
+            names = []
+            for d in dims[1:]:
+                k = list(d)[0]
+                names.append(pool[k][used[k] % 4])
+                used[k] += 1
+            top = 'meter' if 'm' in dims[0] else 'second'
+            reqs.append({'mode': 'query', 'text': '%s %s -> %s' % (frac_text(v if v != 0 else Fraction(7, 2)), top, ';'.join(names)), 'lift': True})
+            return reqs
         rem = v
         for i in range(self.n - 1):
             u = Fraction(inputs['u%d' % i])
@@ -185,6 +204,14 @@ class ToList(Harness):
             if total != v:
                 bad.append('parts sum to %s, not %s' % (total, v))
             return (bool(bad), '; '.join(bad) or 'breakdown is lossless')
+        if obs and 'display' in obs[0] or (obs and obs[0].get('stage') == 'eval'):
+            q = obs[0]
+            if q.get('outcome') == 'panic' or q.get('render_panic'):
+                return True, 'panic %s' % (q.get('panic') or q.get('render_panic'))
+            dims = [conc_dim(inputs, 'dt', self.U)] + [conc_dim(inputs, 'd%d' % i, self.U) for i in range(self.n)]
+            conform = all(d == dims[1] for d in dims[2:]) and dims[0] == dims[1]
+            accepted = q.get('outcome') == 'ok'
+            return (accepted != conform), 'list dims %s: accepted=%s (%s)' % (dims, accepted, q.get('display'))
         # kernel level: div_rem law on each step
         rem = v
         for i, o in enumerate(obs):
